@@ -32,7 +32,9 @@ func SetHTTPHandler(h func(url string) HTTPResult) {
 	if httpSrv != nil {
 		return
 	}
-	httpSrv = httptest.NewServer(http.HandlerFunc(func(w http.ResponseWriter, r *http.Request) {
+	// (no keep-alive: a request on a re-used connection that is closed without an answer would be
+	// repeated silently by net/http's client, and "unreachable" would never be seen by the caller)
+	httpSrv = httptest.NewUnstartedServer(http.HandlerFunc(func(w http.ResponseWriter, r *http.Request) {
 		httpMu.Lock()
 		h := httpHandler
 		httpMu.Unlock()
@@ -61,6 +63,8 @@ func SetHTTPHandler(h func(url string) HTTPResult) {
 		w.WriteHeader(res.Status)
 		w.Write(res.Body)
 	}))
+	httpSrv.Config.SetKeepAlivesEnabled(false)
+	httpSrv.Start()
 }
 
 // HTTPAddr is the host:port under which the harness's leader is reachable.
